@@ -93,3 +93,26 @@ def reciprocity_probe(seed, n_sets):
 def result(name, unit, bound_text, n, bad):
     return Result(name, "R", "discharged" if bad is None else "refuted", 0.0, "replay", "" if bad is None else repr(bad)[:3000], unit,
                   bounded=bound_text % n, counterexample=bad, replay={"reproduced": bad is not None, "mismatch": bad})
+
+
+def lattice_probe(amps, seeds=(0, 1, 2)):
+    """C05: exact and near-exact lattices (every generator of an m^d lattice displaced by a uniform perturbation of the given amplitude), periodic
+    and reflective, 2D and 3D: construction must not panic and the cell measures must sum to the box measure (ties resolved consistently)."""
+    reqs, meta = [], []
+    for amp in amps:
+        for seed in seeds:
+            for per in (True, False):
+                for m, d in ((4, 3), (5, 2), (3, 3)):
+                    rng = random.Random(seed * 1000 + int(amp * 1e17))
+                    gens = [[(i + 0.5) / m + rng.uniform(-amp, amp), ((j + 0.5) / m + rng.uniform(-amp, amp)) if d >= 2 else 0.0,
+                             ((k + 0.5) / m + rng.uniform(-amp, amp)) if d == 3 else 0.0]
+                            for i in range(m) for j in range(m if d >= 2 else 1) for k in range(m if d == 3 else 1)]
+                    reqs.append({"op": "build", "gens": gens, "anchor": [0, 0, 0], "width": [1, 1, 1], "dim": d, "periodic": per})
+                    meta.append({"amplitude": amp, "seed": seed, "periodic": per, "lattice": "%d^%d" % (m, d)})
+    for mt, rq, a in zip(meta, reqs, replay_requests(reqs, timeout=1800)):
+        if "cells" not in a:
+            return len(reqs), {"case": mt, "real": a, "request": {k: v for k, v in rq.items() if k != "gens"}, "first_generators": rq["gens"][:3], "what": "construction panics on a (near-)exact lattice"}
+        vol = sum(c["volume"] for c in a["cells"])
+        if abs(vol - 1.0) > 1e-9:
+            return len(reqs), {"case": mt, "sum_of_cell_measures": vol, "what": "cells of a (near-)exact lattice do not tile the box"}
+    return len(reqs), None
